@@ -335,7 +335,16 @@ func Run(r *core.Run) {
 	edBase := scen.EdKey("byte-boundary", 3, 1, r.Seed)
 	msg := new(big.Int).SetBytes(core.Bytes("c20-msg", 32))
 	msg.Mod(msg, ref.Secp256k1.N)
-	for _, curve := range []string{"ecdsa", "eddsa"} {
+	// a second key per curve whose ids lie at or above the group order (q+3, 2q+11, q+19): histories of length <= 2
+	ecBaseQ := scen.EcKey("above-q", 3, 1, r.Seed)
+	edBaseQ := scen.EdKey("above-q", 3, 1, r.Seed)
+	for _, curve := range []string{"ecdsa", "eddsa", "ecdsa/ids>=q", "eddsa/ids>=q"} {
+		ecBase, edBase, maxLen := ecBase, edBase, maxLen
+		if strings.HasSuffix(curve, "/ids>=q") {
+			ecBase, edBase, maxLen = ecBaseQ, edBaseQ, 2
+		}
+		idClass := curve
+		curve := strings.TrimSuffix(curve, "/ids>=q")
 		alpha := ops
 		if curve == "eddsa" {
 			alpha = []string{"reload", "sign(0,1)", "sign(2,1;reversed)", "abort-silence(0,1)", "abort-tamper(1,2)"}
@@ -355,7 +364,7 @@ func Run(r *core.Run) {
 			}
 			w.finish()
 			r.Count("sequences", 1)
-			r.Distinct("sequences", curve+":"+strings.Join(seqs[i], ">"))
+			r.Distinct("sequences", idClass+":"+strings.Join(seqs[i], ">"))
 			if i%97 == 0 {
 				r.Sample(4, map[string]interface{}{"curve": curve, "sequence": seqs[i], "completed_sessions": len(w.sess)})
 			}
